@@ -49,6 +49,18 @@ REF_OBJS := $(patsubst %.c,$(B)/verif/%.o,$(REF_SRCS))
 
 LIBS := /root/miniconda/lib/libzstd.a /usr/lib/x86_64-linux-gnu/libz.a -lm -lpthread
 
+# WRAP=1: the harness links copies of the library objects (and of zlib/zstd) whose
+# allocator references are renamed to mcf_* (mc/fault.c), see mc/wrap.syms
+WRAP ?=
+ifeq ($(WRAP),1)
+  REPO_LINK := $(patsubst $(B)/repo/%.o,$(B)/repow/%.o,$(REPO_OBJS))
+  LIBS := $(B)/libzstd_w.a $(B)/libz_w.a -lm -lpthread
+  WLIBS := $(B)/libzstd_w.a $(B)/libz_w.a
+else
+  REPO_LINK := $(REPO_OBJS)
+  WLIBS :=
+endif
+
 $(B)/repo/src/simd/x86/sse_ops.o:    ISA := -msse4.2
 $(B)/repo/src/simd/x86/avx2_ops.o:   ISA := -mavx2 -mbmi2
 $(B)/repo/src/simd/x86/avx512_ops.o: ISA := -mavx512f -mavx512bw -mavx512vl
@@ -77,9 +89,19 @@ $(B)/verif/harness/%.o: harness/%.c
 HSRCS ?=
 HOBJS := $(patsubst %.c,$(B)/verif/%.o,$(HSRCS))
 harness: $(B)/bin/$(H)
-$(B)/bin/$(H): $(B)/verif/harness/$(H).o $(HOBJS) $(MC_OBJS) $(REF_OBJS) $(REPO_OBJS)
+$(B)/repow/%.o: $(B)/repo/%.o mc/wrap.syms
 	@mkdir -p $(dir $@)
-	$(CC) $(LFLAGS) $(LDEXTRA) -o $@ $^ $(LIBS)
+	objcopy --redefine-syms=mc/wrap.syms $< $@
+$(B)/libz_w.a: /usr/lib/x86_64-linux-gnu/libz.a mc/wrap.syms
+	@mkdir -p $(dir $@)
+	objcopy --redefine-syms=mc/wrap.syms $< $@
+$(B)/libzstd_w.a: /root/miniconda/lib/libzstd.a mc/wrap.syms
+	@mkdir -p $(dir $@)
+	objcopy --redefine-syms=mc/wrap.syms $< $@
+
+$(B)/bin/$(H): $(B)/verif/harness/$(H).o $(HOBJS) $(MC_OBJS) $(REF_OBJS) $(REPO_LINK) $(WLIBS)
+	@mkdir -p $(dir $@)
+	$(CC) $(LFLAGS) $(LDEXTRA) -o $@ $(filter %.o,$^) $(LIBS)
 
 clean:
 	rm -rf build
